@@ -372,17 +372,18 @@ def run_check(prop_id, tier, root_seed, budget_s=None, n_runs=None):
     for o in violations:
         by_sig.setdefault(o["oracle"], []).append(o)
     for oracle, group in sorted(by_sig.items()):
-        first = group[0]
-        kf = match_finding(findings, prop_id, oracle, first.get("message"))
-        if kf is not None and all(
-            match_finding(findings, prop_id, oracle, g.get("message")) is kf for g in group
-        ):
-            known_hits[kf["id"]] = (kf, len(group), first)
+        matched = [(g, match_finding(findings, prop_id, oracle, g.get("message"))) for g in group]
+        for g, kf in matched:
+            if kf is not None:
+                # several known findings may share one oracle (K2 and K3 both show as a non-isomorphic pair)
+                prev = known_hits.get(kf["id"])
+                known_hits[kf["id"]] = (kf, (prev[1] if prev else 0) + 1, prev[2] if prev else g)
+        unknown = [g for g, kf in matched if kf is None]
+        if not unknown:
             continue
         # not (entirely) known: pick the first one that is not covered
-        cand = next(
-            g for g in group if match_finding(findings, prop_id, oracle, g.get("message")) is None
-        )
+        cand = unknown[0]
+        group = unknown  # occurrences reported below count the runs that no known finding covers
         R = cand["R"]
         if oracle == "hang":
             # a watchdog expiry is only a violation if the run still does not finish with four times the time
